@@ -108,7 +108,7 @@ def build_native(ctx, ob, tcfg):
                 "-Wl,-rpath," + bdir, "-Wl,-rpath," + bdir + "/booster"]
     cmd = (["g++", "-std=c++11", "-O1", "-g", "-fsanitize=address", "-fno-omit-frame-pointer", "-w",
             "-DVERIF_NATIVE", "-DVERIF_ENTRY=" + ob["entry"]] + DEFS + defs_args(defs) + INC +
-           [src, os.path.join(ROOT, "harness", "verif_native.cpp"), "-o", exe] + libs + ["-lpthread", "-ldl", "-lz"])
+           [src, os.path.join(ROOT, "harness", "verif_native.cpp"), "-o", exe] + libs + ["-lpthread", "-ldl", "-lz", "-lcrypto", "-lpcre"])
     rc, out, dt, to = run(cmd, timeout=900)
     if rc != 0:
         raise Inconclusive("native build failed for %s:\n%s" % (ob["entry"], out[-3000:]))
@@ -275,6 +275,8 @@ def prepare(ctx, ob):
             cmd += ["--noop", d]
         for d in ob.get("cut", []):
             cmd += ["--cut", d]
+        for d in ob.get("roots", []):
+            cmd += ["--root", d]
         if ob.get("watch"):
             cmd.append("--watch")
         if not ob.get("ctors", True):
